@@ -37,18 +37,19 @@ type Obligation struct {
 
 // Root holds everything shared by the encoders of one verified function (root + inlined callees).
 type Root struct {
-	g        *Gen
-	v        *Verifier
-	fn       *ssa.Function
-	ct       *Contract
-	items    []Item
-	obls     []*Obligation
-	uniq     int
-	init     map[string]string // state var -> initial const
-	stSort   map[string]string // state var -> sort
-	writeLog map[string]map[int]bool
-	modsets  map[int]map[string]bool // loop head block index -> state vars written in loop (from discovery pass)
-	discover bool
+	g          *Gen
+	v          *Verifier
+	fn         *ssa.Function
+	ct         *Contract
+	items      []Item
+	obls       []*Obligation
+	uniq       int
+	init       map[string]string // state var -> initial const
+	stSort     map[string]string // state var -> sort
+	writeLog   map[string]map[int]bool
+	modsets    map[int]map[string]bool // loop head block index -> state vars written in loop (from discovery pass)
+	discover   bool
+	abstracted []string // loop-carrying closures replaced by their write set (see abstractClosureCall)
 	// callsModAll: the function calls a contract with 'modifies *' (see havocModifies)
 	callsModAll bool
 	nopanic     bool
